@@ -122,7 +122,40 @@ def replay_key_covers(spec):
     }
 
 
+def replay_c07_reshape_plan(spec):
+    """counterexample of the calc_reshape_args contract: the solver's sizes are given to the real function;
+    the returned plan is applied to the shape (contracts.reshape.apply_plan, integer instance)."""
+    from bounded.common import sr  # the tree under check
+    from bounded.oracles_fuse import PlanError, reshape_plan_apply
+
+    w = spec.get("witness") or {}
+    if "shape" not in w or "error" in w:
+        return {"reproduced": False, "note": f"no witness values in the solver output ({w.get('error', '')})"}
+    shape = tuple(int(x) for x in w["shape"])
+    new = tuple(int(x) for x in w["newshape"])
+    subs = tuple(tuple(int(x) for x in sb) if sb else None for sb in w["subsizes"])
+    inp = {"shape": shape, "newshape": new, "subsizes": subs}
+    f = sr.abelian_core.calc_reshape_args
+    f = getattr(f, "__wrapped__", f)
+    ob = spec.get("obligation", "")
+    try:
+        plan = f(shape, new, subs)
+    except Exception as e:  # noqa: BLE001
+        hit = "no_unexpected_" in ob or "identity" in ob
+        return {"reproduced": bool(hit), "note": f"calc_reshape_args{(shape, new, subs)} raises {type(e).__name__}: {e}", "input": inp}
+    if "identity" in ob:
+        bad = plan != ((), (), ())
+        return {"reproduced": bool(bad), "note": f"calc_reshape_args{(shape, new, subs)} = {plan} for a request of the current shape", "input": inp}
+    try:
+        got = reshape_plan_apply(shape, subs, plan)
+    except PlanError as e:
+        return {"reproduced": True, "note": f"calc_reshape_args{(shape, new, subs)} = {plan}: malformed plan: {e}", "input": inp}
+    bad = tuple(got) != new
+    return {"reproduced": bool(bad), "note": f"calc_reshape_args{(shape, new, subs)} = {plan} yields shape {tuple(got)}" + ("" if bad else " (as requested)"), "input": inp}
+
+
 REGISTRY = [
+    ("C07.calc_reshape_args", replay_c07_reshape_plan),
     ("frames.key_covers", replay_key_covers),
     ("C13.svd_truncated.cutoff_threshold", replay_c13_threshold),
     ("C17.get_symmetry", replay_c17_get_symmetry),
